@@ -56,6 +56,9 @@ def _spec(names, full):
     s = worlds.names_spec(names, full=full, depth2=False)
     s[b"meta"] = META_DIR
     s[b"gmx"] = GM_DIR
+    # a directory that is called what the WAP prefix (waptop) is called, and one more inside it: /wap/wap and
+    # /wap/wap/wap are its WAP addresses -- the prefix comes off exactly once
+    s[b"wap"] = {b"phones.txt": b"phones\n", b"wap": {b"deeper.txt": b"deeper\n"}, b"page.html": worlds.HTML}
     return s
 
 
@@ -126,6 +129,12 @@ def mime_of(view, out):
 MENU_MAP = {"http": "text/html", "https": "text/html", "wap": "text/vnd.wap.wml", "gemini": "text/gemini", "spartan": "text/gemini", "gopherp_info": "application/gopher+-menu"}
 
 
+def shadowed(view, sel):
+    """An HTTP request whose path begins with the configured WAP prefix IS a WAP request (that is what the
+    prefix is for): an object that is called like the prefix has no address of its own in plain HTTP."""
+    return view.startswith("http") and (sel == b"/wap" or sel.startswith(b"/wap/"))
+
+
 def _shard(shard, seed, tier):
     part = core.Partial()
     handlers, ae, ah, names = shard
@@ -136,6 +145,9 @@ def _shard(shard, seed, tier):
         for d in dirs:
             ref = None
             for view in VIEWS:
+                if shadowed(view, d):
+                    part.count("http_address_shadowed_by_waptop")
+                    continue
                 r, entries, err = fetch_listing(w, view, d)
                 part.evaluations += 1
                 part.transitions += 1
@@ -165,6 +177,8 @@ def _shard(shard, seed, tier):
                 for view in ("gopher", "http", "gemini", "spartan", "wap", "gopherp_dir", "http%2F", "gemini%2F", "spartan%2F", "wap%2F"):
                     enc_slash = view.endswith("%2F")
                     view = view[:-3] if enc_slash else view
+                    if shadowed(view, d):
+                        continue
                     a = w.serve(*rig.request(view, d))
                     if enc_slash:
                         rq, tls = rig.request(view, d)
@@ -195,6 +209,8 @@ def _shard(shard, seed, tier):
                     continue
                 mimes = {}
                 for view in ("http", "gemini", "spartan", "gopherp_info", "https"):
+                    if shadowed(view, sel):
+                        continue
                     r = w.serve(*rig.request(view, sel))
                     part.evaluations += 1
                     m = mime_of(view, r.out)
